@@ -93,6 +93,9 @@ def check(case):
             return "union of same-geometry counting filters returned None"
         if list(u.bloom) != list(both.bloom):
             return "counters of the union differ from the counting filter fed both streams"
+        for k in keys:
+            if u.check(k) != both.check(k):
+                return f"the union estimates {u.check(k)} for {k!r}, the counting filter fed both streams {both.check(k)} (hash strategy: {case['strat']})"
         # a second union of the same receiver with another operand
         c, both2 = mk(), mk()
         for k, n in a_ops:
